@@ -49,6 +49,21 @@ def wrong_pw(ctx, pw, pw2, idu, ids, context):
     ctx.expect(g.ok, "control: the login password itself registers and logs in")
 
 
+def two_things_wrong(ctx, pw, pw2, which, n):
+    """a wrong password together with a second defect on the client's side (over-long context or identity): the login
+    fails, and WHICH error is reported is the model's (the order of the checks is part of the proved acceptance
+    characterisation): a wrong password is reported as InvalidLogin unless an earlier check refuses the parameters"""
+    ctx.nontrivial = True
+    big = b"z" * n
+    over = {"context": {"cli_context": big}, "idu": {"cli_idu": big}, "ids": {"cli_ids": big}}[which]
+    f = honest_flow(ctx, pw, b"user", None, None, None, "~", stop_on_error=False, count=True, login_pw=pw2, **over)
+    ctx.expect(not f.ok and f.failed_at == "login_finish", "wrong password and over-long %s: the client's final step fails (%s at %s)"
+               % (which, "Ok" if f.ok else f.error, f.failed_at))
+    ctx.expect(f.ke3 is None and f.session_client is None, "no finalization, no keys")
+    if which == "context":
+        ctx.expect(f.error == "InvalidLogin", "the password is checked before the context is framed: InvalidLogin (%s)" % f.error)
+
+
 def overlong(ctx, n, idu, ids, context):
     """passwords beyond what the OPRF can length-prefix (65535 bytes): the code refuses them (model and code must
     agree where); were one accepted, nothing it could be confused with (its digests, its truncations) may log in"""
@@ -79,6 +94,9 @@ def cases(tier, seed):
             ids = [(None, None, None), (b"client", b"server", b"ctx")][i % 2]
             out.append(dict(cross=["login_finish", "srv_login_finish", "srv_reg_start"], cross_limit=60, script=wrong_pw, suite=s, seed=seed * 100000 + si * 1000 + i, mode="pattern+err",
                             params=dict(pw=a, pw2=b, idu=ids[0], ids=ids[1], context=ids[2])))
+        for j, (which, n) in enumerate([("context", 65536), ("idu", 65536), ("ids", 70000), ("context", 131072)][: (4 if tier == "thorough" else 2)]):
+            out.append(dict(script=two_things_wrong, suite=s, seed=seed * 100000 + si * 1000 + 950 + j, mode="pattern+err",
+                            params=dict(pw=b"right password", pw2=b"wrong password", which=which, n=n)))
         for j, n in enumerate([65536, 65535] + ([70000, 131072] if tier == "thorough" else [])):
             ids = [(None, None, None), (b"client", b"server", b"ctx")][j % 2]
             out.append(dict(script=overlong, suite=s, seed=seed * 100000 + si * 1000 + 900 + j, mode="pattern+err",
